@@ -73,6 +73,9 @@ GEN = {
 # C06 at the loop (see ALIAS): a running repeat, held keys and chords across tablet-mode changes
 GEN[("C06", "quick")] = [("basic", ["P:S"], 1, 2, 2, 0), ("shiftchord", ["P:LEFTSHIFT", "P:A", "R:LEFTSHIFT"], 3, 1, 0, 0), ("chord", ["P:LEFTCTRL", "P:K"], 2, 1, 1, 0)]
 GEN[("C06", "thorough")] = GEN[("C12", "thorough")]
+# C01 at the loop (see ALIAS): many events per notification (a loop that stops reading early leaves the releases unread), tablet events and key events in one wake-up
+GEN[("C01", "quick")] = [("basic", ["P:A", "P:S"], 1, 1, 0, 0, 20), ("basic", ["P:A", "R:A"], 2, 2, 0, 0), ("passthru", ["R:1"], 1, 1, 0, 0, NINE)]
+GEN[("C01", "thorough")] = GEN[("C01", "quick")] + [("basic", ["P:A", "R:A"], 1, 0, 1, 1, 70), ("norep", ["P:LEFTSHIFT", "P:A"], 2, 0, 0, 0, 33), ("basic", ["P:A", "R:A"], 3, 2, 0, 0)]
 # C18 at the real driver (see ALIAS): large batches - nine keys released at once by the tablet switch, bursts of pass-through events
 GEN[("C18", "quick")] = [("passthru", ["R:1"], 1, 1, 0, 0, NINE), ("basic", ["P:A", "R:A"], 1, 1, 0, 0, 20)]
 GEN[("C18", "thorough")] = [("passthru", ["R:1", "P:A"], 2, 2, 0, 0, NINE), ("basic", ["P:A", "R:A"], 2, 1, 0, 0, 40), ("passthru", ["R:1"], 1, 1, 0, 0, SEVENTEEN)]
@@ -84,10 +87,11 @@ SIM = {
     "C20": [("basic", ["P:A", "R:A", "P:S"], 4, 2, 2, 1)],
     "C06": [],
     "C18": [],
+    "C01": [],
 }
 INVARIANTS = ["NoLostWakeup", "SendsAreMapperOutputs", "QuietInTabletMode", "HeldMatches", "ReleasedInTablet", "ChordsAreTransient", "StopsOnFailure", "EmitSchedule"]
 # registers of LoopTrace that must be non-zero for a run of the property to be non-vacuous
-NEED = {"C10": [4, 8], "C11": [3, 6], "C12": [5, 9, 10], "C20": [7], "C06": [5, 10], "C18": [4, 5]}
+NEED = {"C10": [4, 8], "C11": [3, 6], "C12": [5, 9, 10], "C20": [7], "C06": [5, 10], "C18": [4, 5], "C01": [4, 8]}
 REGS = ["traces", "drifts", "chords_judged", "step_sends_judged", "releaseall_sends_judged", "timed_polls_judged", "failing_calls_judged",
         "polls_with_unread_events_queued", "key_events_read_in_tablet_mode", "tablet_on_with_keys_held"]
 
@@ -408,7 +412,9 @@ def startup_runs(res, exe, wd, tier):
 
 # loop-level clauses that are ALSO what another property says, seen at the loop: C06 ("after the release-all operation used on tablet-mode
 # changes nothing is held ... answers as a newly created mapper ... no memory of ... repeat triggers survives")
-ALIAS = {"C06": {"C12-repeat-survives-tablet-switch", "C12-not-fresh-after-tablet-mode", "C12-not-released-at-tablet-on", "C12-chord-not-as-fresh-after-tablet-mode"},
+ALIAS = {# C01 at the loop ("whenever no physical key is held, no key is held on the virtual keyboard"), judged each time the loop goes back to waiting
+         "C01": {"C01-keys-held-while-waiting-although-every-key-was-released"},
+         "C06": {"C12-repeat-survives-tablet-switch", "C12-not-fresh-after-tablet-mode", "C12-not-released-at-tablet-on", "C12-chord-not-as-fresh-after-tablet-mode"},
          # C18 at the real driver ("for every batch of output events the bytes written are one record per event ... followed by exactly one
          # SYN_REPORT"): under the real driver every write is decoded and logged as one send, so a batch that is split, merged, truncated or
          # malformed on its way through RealDriver::send / DevInputWriter::send shows as a payload that is not the batch
